@@ -363,7 +363,7 @@ fn arb_cookie() -> impl Strategy<Value = CookieSpec> {
         .prop_map(|(name, value, expires, max_age, domain, path, secure, http_only, same_site)| CookieSpec { name, value, expires, max_age, domain, path, secure, http_only, same_site })
 }
 
-fn arb_build() -> impl Strategy<Value = BuildSpec> {
+pub fn arb_build() -> impl Strategy<Value = BuildSpec> {
     let item = prop_oneof![
         5 => (arb_header_name(), arb_header_value()).prop_map(|(n, v)| BuildItem::Header(n, v)),
         2 => arb_cookie().prop_map(BuildItem::Cookie),
